@@ -45,13 +45,14 @@ CHECKS["C03"] = dict(
         "(C03_query_tables): C03_query_roundtrip, parse(str q) = q for every such query over operands of any size that meet the criterion; compared "
         "with the real query parser and printer on every generated query. The statistical forms Pr[B](<> e), Pr[B]([] e), Pr[B](a U b), E[B](max|min: e), "
         "simulate[B]{..} with the bounds <=e, #<=e, l<=e and an optional run count (Model/QuerySmc.lean; their print cases are conditional, so the "
-        "translator matches their whole texts and regenerates the terminals of their literals): C03_smc_roundtrip. Probability comparisons, "
-        "`>= p` forms, simulate with a reachability part, minE/maxE, strategies and the Buchi form are exercised on the real library by the same "
+        "translator matches their whole texts and regenerates the terminals of their literals): C03_smc_roundtrip; hypothesis tests Pr[B](..) >= p, comparisons Pr[B](..) >= Pr[B'](..) and "
+        "simulate[B]{..} : n : e (Model/QuerySmc2.lean): C03_smc2_roundtrip. `<= p` forms (the builder negates the predicate and computes 1 - p), "
+        "minE/maxE, strategies and the Buchi form are exercised on the real library by the same "
         "oracle but are outside the Lean model (testing). String constants are modelled at "
         "the text level (std::quoted on output, the lexer rule, std::quoted on input): C03_string_roundtrip for every non-empty value without a double quote.",
    note="Trusted: Lean kernel, axioms propext/Quot.sound/Classical.choice, translate/printer.py + exprgrammar.py, harness/c02.cpp, c03q.cpp. "
         "The theorem is about token streams; that lexing the printed text gives those tokens is checked per case, not proved. Literal "
-        "formatting of doubles and of -2147483648, the quantifier binder type text and the statistical query syntax are not modelled: deviations there "
+        "formatting of doubles and of -2147483648, the quantifier binder type text and the strategy / MITL query syntax are not modelled: deviations there "
         "are found by the differential oracle only (4 known findings listed in known_findings.d/C03.json; 6 defects repaired by fix: commits). "
         "That bison's LALR automaton on the query productions behaves as the hand-written query parser is validated by comparing trees, not proved.",
    technique="Lean 4 print/parse round-trip theorem over tables translated from expression.cpp and parser.y + differential correspondence",
